@@ -64,6 +64,19 @@ def nontrivial(case):
     return False
 
 
+LANG_PROPS = ["C01", "C02", "C05", "C07"]      # properties decided with the MtailLang reference semantics
+
+
+def lang_open_devs():
+    """Open deviations of the reference semantics, whichever language property they are filed under."""
+    out = []
+    for p in LANG_PROPS:
+        for d in vlib.open_devs(p):
+            if d in DEVS and d not in out:
+                out.append(d)
+    return out
+
+
 def run_profile(ctx, binary, profile, lo, n, opt="on", extra=None, check_stamps=True, what="metrics"):
     """Generate seeds lo..lo+n-1, replay, compare with the ideal semantics; mismatches are re-checked with the
     property's open deviations switched on (findings protocol).  Returns number of cases compared."""
@@ -102,7 +115,8 @@ def run_profile(ctx, binary, profile, lo, n, opt="on", extra=None, check_stamps=
 
 def explain(ctx, binary, profile, suspects, opt, extra, check_stamps):
     """DESIGN 4.4 step 3: a mismatch against the corrected spec is re-checked with the open deviations on."""
-    devs = [d for d in vlib.open_devs(ctx.prop) if d in DEVS]
+    devs = lang_open_devs()
+    own = set(vlib.open_devs(ctx.prop))
     explained = {}
     if devs:
         dcases = generate(ctx, profile, seedset=sorted(suspects), devs=devs)
@@ -126,7 +140,46 @@ def explain(ctx, binary, profile, suspects, opt, extra, check_stamps):
                            "mismatches": out2[:6], "opt": opt, "extra": extra},
                           "seed %d: %s" % (seed, out2[0][:300]))
     if explained:
+        ctx.cov["explained_by_findings_of"] = devs
         for d in devs:
+            if d not in own:
+                continue                      # filed (and reported) under another language property
+            if any(("%s:" % d) in k for k in ctx.known):
+                continue                      # already reported through its witness
             f = vlib.open_finding(ctx.prop, d)
             ctx.known_finding(d, "%s [%d generated cases differ from the reference semantics and are explained by the open deviations %s]"
                               % (f["what"], len(explained), ",".join(devs)))
+
+
+def run_witnesses(ctx, binary):
+    """Re-executes the concrete witness of every OPEN finding of this property that carries literal source text.
+    The witness states what the reference semantics requires (`reference`); if the real code still departs from it
+    the KNOWN-FINDING line is printed, otherwise nothing (a repaired defect is simply no longer reported)."""
+    n = 0
+    for f in vlib.load_findings(ctx.prop):
+        w = f.get("witness") or {}
+        if f["status"] != "open" or "source" not in w:
+            continue
+        n += 1
+        recs = vlib.run_harness(ctx, binary, args=["-opt", "both"], cases=[{"seed": n, "src": w["source"], "rawlines": w["lines"]}])
+        rec = [r for r in recs if "runs" in r][0]
+        ref = w["reference"]
+        departs = []
+        for run in rec["runs"]:
+            if not run["opt"] and not ref.get("also_unoptimised", True):
+                continue
+            if run["accepted"] != ref.get("accepted", True):
+                departs.append("compiler %s the program: %s" % ("accepted" if run["accepted"] else "rejected", (run.get("errors") or "")[:200]))
+                continue
+            if not run["accepted"]:
+                continue
+            last = run["lines"][-1]
+            if "err" in ref and [l["err"] for l in run["lines"]] != ref["err"]:
+                departs.append("runtime error flags %s, reference %s" % ([l["err"] for l in run["lines"]], ref["err"]))
+            for name, want in ref.get("final", {}).items():
+                m = [x for x in last["metrics"] if x["name"] == name]
+                got = [[lv["l"] or [], lv["i"] if m[0]["type"] == "Int" else (lv["f"] if m[0]["type"] == "Float" else lv["s"])] for lv in (m[0]["lvs"] or [])] if m else None
+                if got != want:
+                    departs.append("%s = %s, reference %s" % (name, got, want))
+        if departs:
+            ctx.known_finding(f["deviation"], "%s; witness %r on lines %s: %s" % (f["what"], w["source"], w["lines"], departs[0]))
